@@ -13,14 +13,21 @@ class Verdict:
         sv = z3.Solver(); sv.add(*self.query[0]); sv.add(z3.Not(self.query[1])); return sv.to_smt2()
     def __repr__(self): return f"{self.status}[{self.backend},{self.secs:.2f}s,lem={self.lemmas}]"
 
+DEADLINE = [None]        # wall-clock cap per obligation (set by the outer prove): 4 x the per-query budget; past it every further query answers `unknown`
+def _left_ms(timeout_ms):
+    if DEADLINE[0] is None: return timeout_ms
+    return int(max(0, min(timeout_ms, (DEADLINE[0] - time.time()) * 1000)))
 def _check(assumptions, goal, timeout_ms):
+    timeout_ms = _left_ms(timeout_ms)
+    if timeout_ms <= 0: return z3.unknown, None
     s = z3.Solver(); s.set("timeout", timeout_ms)
     s.add(*assumptions); s.add(z3.Not(goal))
     r = s.check()
     if r == z3.unknown and _nonlinear(list(assumptions) + [goal]):
         # second attempt with products of variables treated as opaque terms (no nonlinear arithmetic reasoning): only `unsat` is taken from it -
         # it is a weaker theory, so unsat there is unsat in the integers; the facts about products then come from the instantiated (Lean-proved) lemmas alone
-        s2 = z3.Solver(); s2.set("timeout", timeout_ms); s2.set("arith.nl", False)
+        if _left_ms(timeout_ms) <= 0: return r, None
+        s2 = z3.Solver(); s2.set("timeout", _left_ms(timeout_ms)); s2.set("arith.nl", False)
         s2.add(*assumptions); s2.add(z3.Not(goal))
         if s2.check() == z3.unsat: return z3.unsat, None
     return r, (s.model() if r == z3.sat else None)
@@ -48,6 +55,7 @@ def congruence_lemmas(pc, terms, timeout_ms, depth=0, cache=None):
     if depth > 4: return lemmas
     for i in range(len(apps)):
         for j in range(i + 1, len(apps)):
+            if DEADLINE[0] is not None and time.time() > DEADLINE[0]: return lemmas
             a1, a2 = apps[i], apps[j]
             e1, e2 = R.entry_of(a1), R.entry_of(a2)
             if e1.kind != e2.kind or a1.sort() != a2.sort(): continue
@@ -157,6 +165,8 @@ def prove(pc, goal, timeout_ms=10000, axioms=True):
                 r3, m3 = _check(pc + lem3 + inst, goal, timeout_ms)
                 if r3 == z3.unsat: return Verdict("proved", "z3", time.time() - t0, lemmas=len(lem3), detail="with instantiated reduction bounds", query=(pc + lem3 + inst, goal))
                 if r3 == z3.sat: r, m = r3, m3
+    if DEADLINE[0] is not None and time.time() > DEADLINE[0]:
+        return Verdict("unknown", "z3", time.time() - t0, lemmas=len(lem), detail="wall-clock cap of this obligation reached before all instantiation stages ran: a model of the abstraction is not reported as a refutation")
     if r == z3.sat: return Verdict("refuted", "z3", time.time() - t0, model=m, lemmas=len(lem), detail="model of the quantifier-free core")
     return Verdict("unknown", "z3", time.time() - t0, lemmas=len(lem))
 
@@ -177,12 +187,21 @@ def _strip(pc, goal):
     return pc, goal
 def prove(pc, goal, timeout_ms=10000, axioms=True):
     """prove with one level of case splitting on ite-conditions of the goal (congruence lemmas may hold only per case)"""
+    top = DEADLINE[0] is None
+    if top: DEADLINE[0] = time.time() + 4 * timeout_ms / 1000.0
+    try: return _prove_outer(pc, goal, timeout_ms, axioms)
+    finally:
+        if top: DEADLINE[0] = None
+def _prove_outer(pc, goal, timeout_ms=10000, axioms=True):
     pc, goal = _strip([toz3(p) for p in pc], goal)
     if z3.is_and(goal) and any(z3.is_implies(ch) for ch in goal.children()):
         # conjunction with guarded conjuncts (several bounded quantifiers in one clause): prove each conjunct under its own guard
         t0 = time.time(); worst = None; lem = 0
         for ch in goal.children():
-            v = prove(pc, ch, timeout_ms, axioms); lem += v.lemmas
+            save = DEADLINE[0]; DEADLINE[0] = None                    # every conjunct is an obligation of its own: own wall-clock cap
+            try: v = prove(pc, ch, timeout_ms, axioms)
+            finally: DEADLINE[0] = save
+            lem += v.lemmas
             if v.status != "proved": return Verdict(v.status, v.backend, time.time() - t0, model=v.model, lemmas=lem, detail=v.detail + f" [conjunct {str(ch)[:60]}]")
             worst = v if worst is None or v.backend != "trivial" else worst
         return Verdict("proved", worst.backend if worst else "trivial", time.time() - t0, lemmas=lem, detail="conjuncts proved separately")
